@@ -4,6 +4,7 @@ import TlsProofs.Crypto.CalcKey
 import TlsProofs.Crypto.GcmTop
 import TlsProofs.Crypto.CcmTop
 import TlsProofs.Crypto.AesTables
+import TlsProofs.Crypto.AesEnc
 /-
   C09 — symmetric primitives and key derivation compute the standardised functions.
 
@@ -686,5 +687,25 @@ theorem aes_rcon_shifts_rounds :
     Aes.Gen.shiftsEnc = [1, 2, 3] ∧ Aes.Gen.shiftsDec = [3, 2, 1] ∧
     Aes.Gen.numRounds = [(16, 10), (24, 12), (32, 14)] :=
   ⟨Aes.rcon_table, Aes.shifts_and_rounds⟩
+
+/-- PARTIAL (growth item).  The table-driven encryption of `Rijndael.encrypt` — first key addition, the
+    T1..T4 rounds with the shift offsets, the special last round with `S` — run on ANY key schedule
+    `K` of 4·(rounds+1) 32-bit words, is the FIPS-197 Cipher (SubBytes, ShiftRows, MixColumns,
+    AddRoundKey) with round key r = the bytes of K[4r..4r+3], for every 16-byte block.
+    Full statement (not yet proved):
+      `(Aes.Model.init key >>= fun k => Aes.Model.encrypt k block) = .ok (Aes.Spec.cipher key block)` and the
+      same for `decrypt` / `invCipher`, for every key of 16, 24, 32 bytes.
+    Missing: (1) the key-schedule loops of `__init__` = KeyExpansion (§5.2); (2) the decryption
+    direction (the equivalent inverse cipher with T5..T8 and the U-transformed keys, §5.3.5).
+    Both are tied by correspondence (`aes_model` / `aes_spec` driver ops). -/
+theorem aes_encrypt_rounds_eq_spec_partial (K : List Nat) (hK : ∀ w ∈ K, w < 2 ^ 32) (rounds : Nat)
+    (hr : 1 ≤ rounds) (hlen : K.length = 4 * (rounds + 1)) (block : Bytes) (hb : block.length = 16) :
+    Aes.Model.crypt K rounds Aes.Gen.T1 Aes.Gen.T2 Aes.Gen.T3 Aes.Gen.T4 Aes.Gen.S Aes.Gen.shiftsEnc block =
+      .ok (Aes.Spec.cipherRK (Aes.rkBytes K) rounds block) :=
+  Aes.crypt_enc_spec K hK rounds hr hlen block hb
+
+example : ∃ r, Aes.Model.crypt (List.replicate 44 7) 10 Aes.Gen.T1 Aes.Gen.T2 Aes.Gen.T3 Aes.Gen.T4 Aes.Gen.S
+    Aes.Gen.shiftsEnc (zeros 16) = .ok r :=
+  ⟨_, aes_encrypt_rounds_eq_spec_partial _ (by decide) 10 (by decide) (by decide) _ (by decide)⟩
 
 end Tls.Crypto.C09
